@@ -4,7 +4,7 @@
    well-formed box (both empty encodings, boxes beyond coverage): the stream ends without failure,
    has no duplicate coordinate, and holds exactly the lookups inside the box. *)
 From Coq Require Import List NArith Lia.
-From VT Require Import Base.Outcome Model.BBox Model.Pipeline Proofs.BBoxProofs Proofs.PipelineProofs Proofs.OverlayProofs Gen.Constants.
+From VT Require Import Base.Outcome Model.BBox Model.Pipeline Proofs.BBoxProofs Proofs.PipelineProofs Proofs.OverlayProofs Gen.Constants Model.Crash Model.Chunk Proofs.ChunkProofs.
 Import ListNotations.
 Local Open Scope N_scope.
 
@@ -42,3 +42,22 @@ Print Assumptions C02_operators_preserve.
 Example C02_hypotheses_inhabited :
   expr_ok (PConv true true None (POver [PZoom (Some 1) (Some 3) (PLeaf [((2, 1, 0), 7); ((3, 7, 7), 8)]); PLeaf [((2, 1, 0), 9); ((2, 3, 3), 10)]])).
 Proof. exact expr_ok_example. Qed.
+
+(* versatiles reader: the stream of a block groups the tile ranges (sorted by offset) into chunks,
+   reads every chunk once and cuts the tiles out of the blob.  For every file, every list of ranges
+   sorted by offset and inside the file, and whatever the size and gap limits group together: no
+   panic in Chunk::push, and every tile is delivered, in order, with exactly its own bytes (ranges
+   shared by de-duplicated tiles included).  The shape of the code this theorem is about is
+   regenerated: vt_stream_variant = 1. *)
+Lemma C02_gen_stream_shape : vt_stream_variant = 1.  Proof. reflexivity. Qed.
+
+Theorem C02_versatiles_chunked_stream :
+  forall file es,
+    sorted_from 0 es -> Forall (fun e => t_off e + t_len e <= N.of_nat (length file)) es ->
+    stream file es = Ok (map (fun e => (t_id e, sub file (N.to_nat (t_off e)) (N.to_nat (t_len e)))) es).
+Proof. exact stream_spec. Qed.
+Print Assumptions C02_versatiles_chunked_stream.
+
+Example C02_chunk_example :
+  stream [10; 11; 12; 13; 14; 15; 16; 17] [mkT 1 0 3; mkT 2 0 3; mkT 3 5 2] = Ok [(1, [10; 11; 12]); (2, [10; 11; 12]); (3, [15; 16])].
+Proof. vm_compute. reflexivity. Qed.
